@@ -103,6 +103,12 @@ func genTitle(r *RNG) *titleDoc {
 	if r.Intn(30) == 0 {
 		sb.Reset() // empty title
 	}
+	if r.Intn(8) == 0 {
+		// a site-wide title that many pages share (too short to be kept: the first <h1> decides)
+		sb.Reset()
+		sb.WriteString([]string{"ACME Blog", "News", "Home", "t7x t8x"}[r.Intn(4)])
+		td.HasSep = false
+	}
 	td.TitleHTML = sb.String()
 	td.T0 = strings.Join(strings.Fields(entityRepl.Replace(td.TitleHTML)), " ")
 	mk := func(p string, n int) string {
@@ -233,7 +239,22 @@ func runC15(c *Ctx, idx int) {
 	// as it occurs in blocks whose text is NOT the title.
 	if T != "" {
 		tag := []string{"h1", "h2", "p", "div", "h3"}[idx%5]
-		block := "<" + tag + ">" + entityBack.Replace(T) + "</" + tag + ">"
+		inner := entityBack.Replace(T)
+		switch idx / 5 % 4 {
+		case 1: // drop cap: the first letter sits in its own inline element
+			if rs := []rune(T); len(rs) > 2 && rs[0] < 128 && rs[0] != '&' && rs[0] != '<' {
+				inner = "<span>" + string(rs[0]) + "</span>" + entityBack.Replace(string(rs[1:]))
+			}
+		case 2: // inline markup around the first word
+			if i := strings.Index(T, " "); i > 0 {
+				inner = "<em>" + entityBack.Replace(T[:i]) + "</em>" + entityBack.Replace(T[i:])
+			}
+		case 3: // a word split in the middle by an inline element
+			if rs := []rune(T); len(rs) > 6 && !strings.ContainsAny(string(rs[:4]), "&< ") {
+				inner = entityBack.Replace(string(rs[:2])) + "<b>" + entityBack.Replace(string(rs[2:4])) + "</b>" + entityBack.Replace(string(rs[4:]))
+			}
+		}
+		block := "<" + tag + ">" + inner + "</" + tag + ">"
 		src2 := td.build(block)
 		c.SetInput(func() any { return map[string]any{"html": src2} })
 		cr2 := run(src2)
